@@ -63,6 +63,13 @@ CLAIMED.update({
     },
 })
 
+CLAIMED.update({
+    "C17": {
+        "text": "Every lock graph on <= 3 (quick) / <= 4 (thorough: all 65,536 adjacency matrices x every set of missing nodes = 83,521) packages x Go map iteration orders (all permutations, owned by the overlay) for both DAG implementations against reference cycle detection, transitive closure and topological-order validation; version selection through the real resolver reconciler for all ordered tag lists over {v1.0.0,v1.1.0,v2.0.0,v1.2.0-rc.1,1.0,latest,v0.9.0} x 11 constraint strings (ranges, exact, digest, invalid) x installed version x upgrade/downgrade options against a reference selection rule; every cyclic lock performs no package write; PackageDependencyManager.Resolve totals and verdict against a reference for every graph x constraint assignment.",
+        "technique": "exhaustive small-scope enumeration (all digraphs, all map orders, all tag lists) against independent reference algorithms",
+    },
+})
+
 PENDING_REASON = "not claimed yet: the check for this property is still being built (design in DESIGN.md section 3); no technique switch is intended"
 
 
